@@ -341,6 +341,10 @@ STR_POOL = ["", "a", "hello world", "tab\tnl\ncr\r", "quote'\"back\\slash", "\u0
 STR_NUL_POOL = ["\x00", "a\x00b", "\x00\x00", "tail\x00", "\x00head", "\u00e9\x00\U0001F600", "x\x00y\x00z"]
 
 
+def hi_is64(t):
+    return t[0] in ("int64", "int", "uint64", "uint", "uintptr")
+
+
 def rnd_int_in(r, lo, hi):
     """boundary-biased integer in [lo, hi]"""
     c = r.random()
@@ -478,14 +482,14 @@ class Val:
 
 
 class IntVal(Val):
-    def __init__(self, r, mode):
+    def __init__(self, r, mode, g):
         self.as_var = r.random() < 0.45
         if mode == "obj":
             self.ctor, self.gotype, lo, hi = r.choice(OBJ_INT_FORMS)
             self.elem = False
             self.sig = "py." + self.ctor
         else:
-            self.gotype, lo, hi = r.choice(GO_INT_TYPES)
+            self.gotype, lo, hi = r.choice([t for t in GO_INT_TYPES if hi_is64(t)] if g.avoid("narrow-int") else GO_INT_TYPES)
             self.elem = True
             self.sig = self.gotype
         self.py = rnd_int_in(r, lo, hi)
@@ -768,7 +772,7 @@ def rnd_val(r, g, mode, depth=0):
         return SeqVal(r, g, depth)
     c = r.random()
     if c < 0.34:
-        return IntVal(r, mode)
+        return IntVal(r, mode, g)
     if c < 0.58:
         return FloatVal(r, mode)
     if c < 0.82:
@@ -1323,7 +1327,7 @@ def generate(seed, idx, nunits=40, avoid=(), maxlong=5000, only=None):
 
 # --------------------------------------------------------------------------- fixed probes of the findings
 
-PROBE_IDS = ["pystr-nul", "alias-arity", "fnref-arg", "binding-own-use"]
+PROBE_IDS = ["pystr-nul", "alias-arity", "fnref-arg", "binding-own-use", "narrow-int"]
 PROBE_UNITS = ["p1", "p2", "p3", "p4"]
 
 
@@ -1443,4 +1447,62 @@ func main() {
            "p2": dump(ascii((1,))) + " " + dump(ascii((1, 2))) + " " + dump(ascii((1, 2, 3))),
            "p3": dump(ascii(("function", "int"))),
            "p4": dump(ascii((3,)))}
+    return {"files": files, "expected": exp}
+
+
+def probe_typecache_program():
+    """Separate fixed program (its failure mode is a build failure or a corrupted layout): a narrow integer converted by
+    py.List / py.Tuple, followed in the same package by code that needs the LLVM type of that integer kind again."""
+    main = '''package main
+
+import (
+	"c19m/rb"
+
+	"github.com/goplus/lib/py"
+)
+
+type rec struct {
+	a uint8
+	b uint16
+	c uint32
+	d int8
+	e int16
+	f int32
+}
+
+var (
+	g8  uint8  = 200
+	g16 uint16 = 60000
+	g32 uint32 = 4000000000
+	h8  int8   = -5
+	h16 int16  = -300
+	h32 int32  = -70000
+)
+
+func p5() {
+	l := py.List(g8, g16, g32, h8, h16, h32)
+	r := rec{1, 2, 3, -4, -5, -6}
+	var x any = r // needs a type descriptor built from uint8/uint16/uint32/... after the conversion above
+	y := x.(rec)
+	var z any = y
+	var s any = "boxed"
+	eq := "ne"
+	if x == z {
+		eq = "eq"
+	}
+	m := map[any]int{} // hashing an interface key: the runtime reads the descriptor of rec (Kind, Size, Equal, fields)
+	m[x] = 1
+	m[z] += 2
+	eq += rb.I64(int64(m[x]))
+	rb.R("p5", rb.DAscii(l)+" "+rb.I64(int64(y.a)+int64(y.b)+int64(y.c)+int64(y.d)+int64(y.e)+int64(y.f))+" "+s.(string)+" "+eq)
+}
+
+func main() {
+	p5()
+	rb.R("end", "s")
+}
+'''
+    files = {"go.mod": "module c19m\n\ngo 1.24\n\nrequire github.com/goplus/lib v0.3.1\n", "rb/rb.go": RB_GO,
+             "pylib/sitecustomize.py": SITECUSTOMIZE, "main.go": main}
+    exp = {"p5": dump(ascii([200, 60000, 4000000000, -5, -300, -70000])) + " -9 boxed eq3"}
     return {"files": files, "expected": exp}
